@@ -192,6 +192,13 @@ def gen_reply_bytes(rng):
     for i in range(k):
         style = rng.random()
         text = bytes(rng.choice(b'abc xyz-()0123,.\xc3\xa9\xff') for _ in range(rng.randrange(0, 12)))
+        if rng.random() < 0.2:
+            # what str.splitlines() / str \d would treat specially (bytes.splitlines and [0-9] do not): VT FF FS GS RS NEL LS PS,
+            # Arabic-Indic and full-width digits
+            odd = rng.choice([b'\x0b', b'\x0c', b'\x1c', b'\x1d', b'\x1e', b'\xc2\x85', b'\xe2\x80\xa8', b'\xe2\x80\xa9'])
+            text = text[:len(text) // 2] + odd + rng.choice([b'226 ok', b'%d done' % code, b'', b'x']) + text[len(text) // 2:]
+        elif rng.random() < 0.08:
+            text = rng.choice([b'\xd9\xa2\xd9\xa2\xd9\xa6 ', b'\xef\xbc\x92\xef\xbc\x92\xef\xbc\x96 ']) + text
         if style < 0.5:
             lines.append(b'%d-%s' % (code, text))
         elif style < 0.7:
@@ -328,14 +335,14 @@ def real_transfer(dsegs, deof, csegs):
 
 
 def stream_transfer(ctx, cases):
-    reqs = ['ftp transfer %s %s %s' % (enc_segs(d), 'T' if e else 'F', enc_segs(c)) for d, e, c in cases]
+    reqs = ['ftp transfer %s %s %s' % (enc_segs(d), 'R' if e == 'reset' else 'T' if e else 'F', enc_segs(c)) for d, e, c in cases]
     replies = ctx.model.ask(reqs)
     for (d, e, c), rep in zip(cases, replies):
         res = real_transfer(d, e, c)
         if res[0] == 'complete':
             real = 'complete %s %s %s' % (enc(res[1]), res[2], 'None' if res[3] is None else '=' + enc(res[3]))
             whole_lines = b''.join(c).split(b'\n')[:-1]
-            if not e or res[2] != 226 or res[1] != b''.join(d) or not any(l.startswith(b'226 ') for l in whole_lines):
+            if e is not True or res[2] != 226 or res[1] != b''.join(d) or not any(l.startswith(b'226 ') for l in whole_lines):
                 ctx.fail('premature-complete', 'read_stream', {'stream': 'transfer', 'data': d, 'eof': e, 'ctrl': c},
                          'transfer reported complete: eof=%s code=%s' % (e, res[2]))
         elif res[0] == 'exc':
@@ -536,7 +543,8 @@ def run(ctx):
         dsegs = fakenet.segment(data, fakenet.random_cuts(rng, len(data)))
         ctrl = rng.choice([b'226 done\r\n', b'226-a\r\n226 b\r\n', b'426 aborted\r\n', b'', b'226 done', b'150 x\r\n', b'550 no\r\n', b'226 done\r', b'226-a\r\n226 b\r', b'226-a\r', b'22', b'226 done\n'])
         csegs = fakenet.segment(ctrl, fakenet.random_cuts(rng, len(ctrl)))
-        tcases.append((dsegs, rng.random() < 0.8, csegs))
+        r = rng.random()
+        tcases.append((dsegs, True if r < 0.65 else 'reset' if r < 0.85 else False, csegs))   # closed / RST / never closed
     stream_transfer(ctx, tcases)
     # session oracle: exhaustive single-byte injection
     for url in session_urls(range(256)):
